@@ -29,7 +29,7 @@
    seconds), histograms the samples of each bucket as observations of the
    bucket's upper bound (model of bucketing: Model/Buckets.v). *)
 From Coq Require Import ZArith List Bool Arith.
-From Tally Require Import Base.Obs Base.Search Model.Buckets.
+From Tally Require Import Base.ObsCore Base.Search Model.Buckets.
 Import ListNotations.
 Open Scope Z_scope.
 
